@@ -255,7 +255,7 @@ def prepareQuery (form : Form) : List Filter :=
 structure Record where
   addr : String
   status : Nat
-  refreshedAt : GoTime
+  refreshedAt : FTime
   info : Info
   deriving Repr
 
@@ -282,7 +282,7 @@ def inStatusSet (bit : Nat) (r : Record) : Bool :=
 intersection of the refreshed-index range (absent when `after` is the zero time) and of the `SINTER`
 of the status sets of `required.Bits()` (absent when `required` is `NoStatus`), read from
 `servers:items`.  Records stand for their (unique) addresses; the order is the registry's. -/
-def repoFilter (recs : List Record) (after : GoTime) (required : Nat) : List Record :=
+def repoFilter (recs : List Record) (after : FTime) (required : Nat) : List Record :=
   recs.filter fun r =>
     (match after with
       | .zero => true
